@@ -433,7 +433,8 @@ struct RateLimiter {
 impl RateLimiter {
     fn new(rate: u8) -> Self {
         Self {
-            interval: 1000 / (rate as u16), // between 3 and 1000 milliseconds
+            // between 4 and 1000 milliseconds; rounded up so that `rate` is an upper bound
+            interval: (1000 + rate as u16 - 1) / (rate as u16),
             capacity: MAX_BURST,
             prev: Instant::now(),
         }
